@@ -60,6 +60,10 @@ struct Case {
     utx: usize,
     /// configured limit of object headers in a READ (None = library default of 64)
     max_read_headers: Option<u16>,
+    /// configured limit of controls per request
+    max_controls: Option<u16>,
+    /// the control handler answers NOT_SUPPORTED for this index
+    refuse: Option<u16>,
     ctrl: u8,
     func: u8,
     objects: Vec<u8>,
@@ -101,6 +105,12 @@ fn menu(func: u8) -> Vec<Hdr> {
         fc::WRITE => vec![
             h("clear-restart", Accept, app::write_restart_objects(false)),
             h("g50v1-time", Accept, app::g50v1_objects(1000)),
+            h("g50v1-two-times", Reject, {
+                let mut v = app::hdr_count8(50, 1, 2);
+                v.extend_from_slice(&app::time48(1000));
+                v.extend_from_slice(&app::time48(2000));
+                v
+            }),
             h("g34v1-deadband", Accept, app::prefixed8(34, 1, &[(1, vec![5, 0])])),
             h("set-restart", Reject, app::write_restart_objects(true)),
             h("g80v1-index4", Reject, vec![80, 1, 0x00, 4, 4, 0]),
@@ -233,6 +243,8 @@ fn build(tier: &str) -> Vec<C12> {
                             tx,
                             utx: tx,
                             max_read_headers: None,
+                            max_controls: None,
+                            refuse: None,
                             ctrl,
                             func,
                             objects: vec![],
@@ -253,6 +265,8 @@ fn build(tier: &str) -> Vec<C12> {
                                 tx,
                                 utx: tx,
                                 max_read_headers: None,
+                                max_controls: None,
+                                refuse: None,
                                 ctrl,
                                 func,
                                 objects: hd.bytes.clone(),
@@ -290,6 +304,8 @@ fn build(tier: &str) -> Vec<C12> {
                             tx,
                             utx: tx,
                             max_read_headers: None,
+                            max_controls: None,
+                            refuse: None,
                             ctrl,
                             func,
                             objects,
@@ -324,7 +340,7 @@ fn build(tier: &str) -> Vec<C12> {
                     let objects = app::prefixed8(12, 1, &items);
                     let ctrl = 0xC0 | 5;
                     let e = if func == fc::DIRECT_OPERATE_NR { Expect::NoReply } else { Expect::Reply };
-                    cases.push(Case { state, tx, utx, max_read_headers: None, ctrl, func, objects, labels: vec!["n-crobs"], expect: e });
+                    cases.push(Case { state, tx, utx, max_read_headers: None, max_controls: None, refuse: None, ctrl, func, objects, labels: vec!["n-crobs"], expect: e });
                 }
             }
             // READ with many headers
@@ -335,7 +351,7 @@ fn build(tier: &str) -> Vec<C12> {
                 }
                 let ctrl = 0xC0 | 6;
                 let e = if n > 64 { Expect::MustError } else { Expect::Reply };
-                cases.push(Case { state, tx, utx, max_read_headers: None, ctrl, func: fc::READ, objects, labels: vec!["n-class0-headers"], expect: e });
+                cases.push(Case { state, tx, utx, max_read_headers: None, max_controls: None, refuse: None, ctrl, func: fc::READ, objects, labels: vec!["n-class0-headers"], expect: e });
             }
         }
     }
@@ -349,10 +365,70 @@ fn build(tier: &str) -> Vec<C12> {
                 objects.extend(app::hdr_all(1, 0));
             }
             let e = if n > limit { Expect::MustError } else { Expect::Reply };
-            cases.push(Case { state: State::Idle, tx: 2048, utx: 2048, max_read_headers: Some(configured), ctrl: 0xC0 | 7, func: fc::READ, objects, labels: vec!["configured-read-header-limit"], expect: e });
+            cases.push(Case { state: State::Idle, tx: 2048, utx: 2048, max_read_headers: Some(configured), max_controls: None, refuse: None, ctrl: 0xC0 | 7, func: fc::READ, objects, labels: vec!["configured-read-header-limit"], expect: e });
         }
     }
     spaces.push(C12 { name: format!("large-requests-{tier}"), cases });
+
+    // (4) control requests of which the handler refuses some objects as NOT_SUPPORTED and the
+    // configured limit refuses others: one to three headers from {accepted, refused} x {g12v1, g41v2},
+    // limits {none, 1, 2, 3}. The reference walks the objects in order (beyond the limit:
+    // TOO_MANY_OPS without asking the handler); a request whose first failing object was refused
+    // as not supported is a rejected request and must be answered with an IIN2 error bit.
+    let mut cases = Vec::new();
+    let ctl_menu: Vec<(&'static str, Vec<u8>, bool)> = vec![
+        ("crob-ok", app::prefixed8(12, 1, &[(3, app::crob(0x03, 1, 100, 200, 0))]), false),
+        ("crob-refused", app::prefixed8(12, 1, &[(7, app::crob(0x03, 1, 100, 200, 0))]), true),
+        ("g41v2-ok", app::prefixed16(41, 2, &[(1, app::g41v2(10, 0))]), false),
+        ("g41v2-refused", app::prefixed16(41, 2, &[(7, app::g41v2(10, 0))]), true),
+    ];
+    for func in [fc::DIRECT_OPERATE, fc::SELECT, fc::DIRECT_OPERATE_NR] {
+        for limit in [None, Some(1u16), Some(2), Some(3)] {
+            for n in 1..=3usize {
+                for code in 0..ctl_menu.len().pow(n as u32) {
+                    let mut k = code;
+                    let mut objects = Vec::new();
+                    let mut labels = Vec::new();
+                    let mut first_error: Option<bool> = None; // Some(true) = NOT_SUPPORTED first
+                    for pos in 0..n {
+                        let (label, bytes, refused) = &ctl_menu[k % ctl_menu.len()];
+                        k /= ctl_menu.len();
+                        objects.extend_from_slice(bytes);
+                        labels.push(*label);
+                        let over = limit.map(|l| pos + 1 > l as usize).unwrap_or(false);
+                        if first_error.is_none() {
+                            if over {
+                                first_error = Some(false);
+                            } else if *refused {
+                                first_error = Some(true);
+                            }
+                        }
+                    }
+                    let e = if func == fc::DIRECT_OPERATE_NR {
+                        Expect::NoReply
+                    } else if first_error == Some(true) {
+                        Expect::MustError
+                    } else {
+                        Expect::Reply
+                    };
+                    cases.push(Case {
+                        state: State::Idle,
+                        tx: 249,
+                        utx: 249,
+                        max_read_headers: None,
+                        max_controls: limit,
+                        refuse: Some(7),
+                        ctrl: 0xC0 | 9,
+                        func,
+                        objects,
+                        labels,
+                        expect: e,
+                    });
+                }
+            }
+        }
+    }
+    spaces.push(C12 { name: format!("refused-controls-{tier}"), cases });
     spaces
 }
 
@@ -364,6 +440,8 @@ impl C12 {
             sol_tx: c.tx,
             unsol_tx: c.utx,
             max_read_headers: c.max_read_headers,
+            max_controls: c.max_controls,
+            ctrl: c.refuse.map(crate::osim::CtrlMode::NotSupportedIndex).unwrap_or(crate::osim::CtrlMode::AllSuccess),
             unsolicited: matches!(c.state, State::UnsolConfirmWait | State::NullUnsolConfirmWait),
             event_buf: [10; 8],
             max_unsol_retries: Some(0),
